@@ -23,6 +23,8 @@ CheckCall(e, c) ==
       seen == [i \in 1..Len(e.labels) |-> <<e.labels[i][1], e.labels[i][2], e.labels[i][3]>>]
       n == Len(e.labels)
       inactive(f, r) == Len(e.active) > 0 /\ ~e.active[f][r]
+      \* the scripted evaluator reverses the order of the realizations at point 2, so that filters select other members there
+      RR(r) == IF e.pt = 2 THEN R + 1 - r ELSE r
   IN IF e.outcome = "toofew" THEN "ok"        \* legitimately ended (no positive weight left): nothing to judge
      ELSE IF e.outcome # "ok" THEN "internal_exception"
      ELSE IF e.ncalls # 1 THEN "not_one_evaluator_call"
@@ -35,10 +37,10 @@ CheckCall(e, c) ==
      ELSE IF Len(e.values) = 0 THEN "harness_recorded_no_reported_values"
      \* every reported per-realization value is the one returned for the row with that label
      ELSE IF \E i \in 1..Len(e.values) : LET x == e.values[i] IN
-               x.f > 0 /\ ~e.failedrow[x.r] /\ ~inactive(x.f, x.r) /\ ~ObsEqInt(x.val, Code(0, x.b, x.r, x.p, x.f))
+               x.f > 0 /\ ~e.failedrow[x.r] /\ ~inactive(x.f, x.r) /\ ~ObsEqInt(x.val, Code(0, x.b, RR(x.r), x.p, x.f))
           THEN "reported_value_not_from_labelled_row"
      \* evaluation_info (function index 0) is routed by the same labels
-     ELSE IF \E i \in 1..Len(e.values) : LET x == e.values[i] IN x.f = 0 /\ ~ObsEqInt(x.val, Code(0, x.b, x.r, x.p, 0))
+     ELSE IF \E i \in 1..Len(e.values) : LET x == e.values[i] IN x.f = 0 /\ ~ObsEqInt(x.val, Code(0, x.b, RR(x.r), x.p, 0))
           THEN "evaluation_info_not_from_labelled_row"
      \* the per-realization summary flag (context.active): inactive iff every function of that realization is inactive
      ELSE IF Len(e.summary) > 0 /\ Len(e.active) > 0 /\ (\E r \in 1..R : e.summary[r] # (\E f \in 1..3 : e.active[f][r]))
